@@ -5,6 +5,7 @@ set -e
 P="$1"; W="/tmp/b/$P"
 rm -rf "$W"; mkdir -p "$W"
 rsync -a --exclude .git --exclude replays --exclude .numba_cache /verif/ "$W/verif/"
+git -C /verif rev-parse HEAD > "$W/verif/.base_commit"
 git -C /repo worktree prune
 git -C /repo worktree add --detach "$W/repo" -q
 echo "$W"
